@@ -90,7 +90,9 @@ fn add_correction(ts: Timestamp, correction: TimeInterval) -> Timestamp {
         .wrapping_add(intermediate_nanos.div_euclid(1_000_000_000).into());
     let corrected_nanos = intermediate_nanos.rem_euclid(1_000_000_000);
 
-    Timestamp::new(corrected_seconds, corrected_nanos)
+    // The wire format has 48 bits of seconds, wrap the corrected value into that range:
+    // both the timestamp and the correction come straight from the network.
+    Timestamp::new(corrected_seconds % (1 << 48), corrected_nanos)
         .expect("Calculated nanoseconds should be between 0 and 1_000_000_000")
 }
 
